@@ -11,3 +11,7 @@ import DDProofs.MddFoa
 import DDProofs.MddIte
 import DDProofs.MddApply
 import DDProofs.MddGc
+import DDProofs.MddConv
+import DDProofs.MddReach
+import DDProofs.MddGcReach
+import DDProofs.MddCount
